@@ -124,6 +124,14 @@ def _dec_name(d):
     return "?"
 
 
+def _is_symbolic_value(v):
+    """values of the engine that stand for unknown Python objects (points, coordinates, field elements, symbolic ints/bytes)"""
+    if isinstance(v, (Fld, SInt, SBytes)):
+        return True
+    return type(v).__module__.startswith("pyvc.") and type(v).__name__ in ("GPt", "GCoord", "FrobCoord", "SAny", "BPoint", "GTVal", "SgnVal", "CoordMarker",
+                                                                           "SymBytesList", "SymListZip", "SymSetOf")
+
+
 class ClassVal:
     def __init__(self, name, mod, node, bases, attrs=None):
         self.name, self.mod, self.node, self.bases = name, mod, node, bases
@@ -757,6 +765,9 @@ class Interp:
                 if hasattr(x, "is_class"):
                     return x.is_class(y)
                 raise Unsupported(f"`type(x) is {y.name}` on an abstract field element (the unit must fix the class)")
+        if a is not b and (_is_symbolic_value(a) or _is_symbolic_value(b)):
+            # two different engine objects may or may not denote the same Python object: never answer `is` by accident
+            raise Unsupported(f"identity test (`is`) involving a symbolic value ({type(a).__name__}, {type(b).__name__})")
         return a is b
 
     def contains(self, cont, x):
